@@ -8,7 +8,7 @@ running implementation by harness/classtable.py using these codes.
 
 import collections.abc
 import enum
-from typing import NewType, TypeVar
+from typing import NewType, Optional, TypeVar
 
 try:  # typing_extensions is a pyanalyze dependency
     from typing_extensions import NotRequired, TypedDict
@@ -59,6 +59,16 @@ class TD1(TypedDict):
 class TD2(TypedDict):
     a: int
     b: NotRequired[str]
+
+
+class TD3(TypedDict):
+    a: Optional[int]
+    b: NotRequired[Optional[str]]
+
+
+class TD4(TypedDict, total=False):
+    a: list[int]
+    c: tuple[int, str]
 
 
 T1 = TypeVar("T1")
